@@ -693,12 +693,53 @@ def run(ctx):
             cases.append(Case("C15 brsel %s x=%s tol=%s" % (gw, rats(F(x)), rat(TOL_BR)), rats(F(img)),
                               nontrivial=not pure, tag="brsel"))
 
-    # ---- polym_lcp_solver (spec run only: Howson's LCP is not modelled) ---------------------------------
+    # ---- polym_lcp_solver: spec run (exact Nash / probability vectors / convergence) + correspondence with the
+    #      model of Howson's LCP (pivot sequence, final basis, flag, count: exact; profile: bits at Float) -------
     from quantecon.game_theory import PolymatrixGame, polym_lcp_solver
-    for _ in range(ctx.n(40, 250)):
-        N = ctx.rng.choice([2, 3, 3, 4])
-        nums = [ctx.rng.randint(2, 4 if N <= 3 else 3) for _ in range(N)]
-        generic = ctx.rng.random() < 0.7
+    import importlib as _il
+    how_mod = _il.import_module("quantecon.game_theory.howson_lcp")
+    orig_piv, orig_lex = how_mod._pivoting, how_mod._lex_min_ratio_test
+    how_rec = {"piv": [], "basis": None}
+
+    def piv_rec(tableau, pivot_col, pivot_row):
+        how_rec["piv"].append((int(pivot_col), int(pivot_row)))
+        return orig_piv(tableau, pivot_col, pivot_row)
+
+    def sol_rec(tableau, basis, z):
+        how_rec["basis"] = [int(t) for t in basis]
+        return orig_sol(tableau, basis, z)
+    orig_sol = how_mod._get_solution
+    def back_stats(nums, st, trace):
+        """generator steering only: replay the bookkeeping of the recorded pivots and count the back-tracking
+        steps and the retro starts at which the slack finishing_y is basic in another row"""
+        N, ta = len(nums), sum(nums)
+        n = ta + N
+        ind = [sum(nums[:i]) for i in range(N)]
+        basis = list(range(n))
+        for pl in range(N):
+            basis[ta + pl] = n + ind[pl] + st[pl]
+        pl, back, moved, retro = 0, 0, 0, False
+        for col, row in trace:
+            if not (0 <= pl < N):
+                break
+            fx = n + ind[pl] + st[pl]
+            fy, fv = fx - n, ta + n + pl
+            if retro and fy in basis and basis[fy] != fy:
+                moved += 1
+            retro = False
+            leaving, basis[row] = basis[row], col
+            if leaving in (fx, fy):
+                pl += 1
+            elif leaving == fv:
+                pl -= 1
+                back += 1
+                retro = True
+        return back, moved
+
+    def gen_poly(N=None, generic=None):
+        N = N or ctx.rng.choice([2, 3, 3, 4, 4])
+        nums = [ctx.rng.randint(2, 4) for _ in range(N)]
+        generic = (ctx.rng.random() < 0.7) if generic is None else generic
         mats = {}
         for i in range(N):
             for j in range(N):
@@ -707,6 +748,82 @@ def run(ctx):
                         mats[(i, j)] = [[ctx.rng.uniform(-1, 1) for _ in range(nums[j])] for _ in range(nums[i])]
                     else:
                         mats[(i, j)] = [[float(ctx.rng.randint(-3, 3)) for _ in range(nums[j])] for _ in range(nums[i])]
+        return N, nums, generic, mats
+
+    def poly_case(N, nums, generic, mats, pg, matq, scale, st, cap=None):
+        cap = cap if cap is not None else ctx.rng.choice([3000, 3000, 3000, 3000, 1, 2, 5, 9])
+        how_rec["piv"], how_rec["basis"] = [], None
+        how_mod._pivoting, how_mod._get_solution = piv_rec, sol_rec
+        try:
+            NE, res = polym_lcp_solver(pg, starting_player_actions=list(st), max_iter=cap, full_output=True)
+        finally:
+            how_mod._pivoting, how_mod._get_solution = orig_piv, orig_sol
+        # --- correspondence: the N initial pivots are not part of the trace
+        trace = how_rec["piv"][N:]
+        pairs = [(i, j) for i in range(N) for j in range(N) if i != j]
+        impl = "conv=%d it=%d piv=%s basis=%s ne=%s" % (res.converged, res.num_iter,
+                                                        ",".join("%d:%d" % t for t in trace) if trace else "-",
+                                                        ints(how_rec["basis"]), fxs(np.concatenate(NE)))
+
+        def hcmp(mo, impl_s, exact=True, NE=NE, tagc="howf"):
+            if " | " not in mo:
+                return "model answered " + mo
+            head, ghost = mo.split(" | ")
+            g = kvs(ghost)
+            if exact:
+                ok = head == impl_s
+            else:
+                hm, hi = head.rsplit(" ne=", 1), impl_s.rsplit(" ne=", 1)
+                ok = hm[0] == hi[0] and all(abs(a - c) <= ENV for a, c in zip(parse_rats(hm[1]), F(np.concatenate(NE))))
+            if not ok:
+                return "pivot sequence / basis / flag / count / profile differ"
+            if tagc == "howf":
+                ctx.count("howson:N=%s:runs" % g["N"])
+                for k in ("back", "rx", "ry", "moved"):
+                    if int(g[k]):
+                        ctx.count("howson:N=%s:runs-with-%s" % (g["N"], {"back": "backtracking", "rx": "retro-enters-finishing_x",
+                                  "ry": "retro-enters-finishing_y", "moved": "retro-with-slack-in-another-row"}[k]))
+                ctx.count("howson:backtracking-steps", int(g["back"]))
+                if kvs(head)["conv"] == "1":
+                    ctx.count("howson:converged:certificate-%s" % ("holds" if g["cert"] == "1" and g["allfound"] == "1" else "fails"))
+            return None
+        req = "nums=%s start=%s pm=%%s maxiter=%d fuel=%d" % (ints(nums), ints(st), cap, 2 * cap + 50 if cap >= 0 else 20000)
+        cases.append(Case("C15 howf " + req % fxm([np.array(mats[k]).ravel() for k in pairs]), impl, cmp=hcmp,
+                          nontrivial=len(trace) >= 2, tag="howf"))
+        if generic:
+            rq = ratm([F(np.array(mats[k]).ravel()) for k in pairs])
+            cases.append(Case("C15 how " + req % rq + " tolpiv=%s toldiff=%s" % (rat(Fraction(1e-10)), rat(Fraction(1e-15))),
+                              impl, cmp=lambda mo, im, NE=NE: hcmp(mo, im, exact=False, NE=NE, tagc="how"),
+                              nontrivial=len(trace) >= 2, tag="how"))
+            cases.append(Case("C15 how " + req % rq + " tolpiv=0 toldiff=0", impl,
+                              cmp=lambda mo, im, NE=NE: hcmp(mo, im, exact=False, NE=NE, tagc="how0"),
+                              nontrivial=len(trace) >= 2, tag="how-tol0"))
+        replay = {"op": "polym_lcp_solver", "matrices": {"%d,%d" % k: v for k, v in mats.items()}, "start": list(st),
+                  "max_iter": cap, "NE": [list(map(float, a)) for a in NE], "converged": bool(res.converged),
+                  "num_iter": int(res.num_iter)}
+        ctx.count("polym:%s:%s" % ("generic" if generic else "integer", "converged" if res.converged else "gave-up(max_iter=%d)" % cap))
+        if res.converged:
+            prof = [F(a) for a in NE]
+            bad = None
+            for i, a in enumerate(prof):
+                if len(a) != nums[i] or any(t < -Fraction(1, 10 ** 9) for t in a) or abs(sum(a) - 1) > ENV:
+                    bad = "player %d's action %s is not a probability vector" % (i, list(map(float, a)))
+            for i in range(N):
+                pv = [sum((sum((matq[(i, j)][a][b] * prof[j][b] for b in range(nums[j])), Fraction(0))
+                           for j in range(N) if j != i), Fraction(0)) for a in range(nums[i])]
+                u = sum(p * w for p, w in zip(pv, prof[i]))
+                if max(pv) - u > Fraction(1, 10 ** 8) * scale:
+                    bad = bad or "player %d can gain %.3e" % (i, float(max(pv) - u))
+            if bad:
+                ctx.spec_fail("polym_lcp_nash", "converged, but " + bad, replay)
+        elif cap >= 3000 and generic:
+            ctx.spec_fail("polym_lcp_convergence", "generic payoffs, no convergence within %d pivots" % cap, replay)
+        elif res.num_iter != cap:
+            ctx.spec_fail("polym_lcp_flag", "not converged after %d != max_iter=%d pivots" % (res.num_iter, cap), replay)
+
+
+    for _ in range(ctx.n(40, 250)):
+        N, nums, generic, mats = gen_poly()
         pg = PolymatrixGame(mats)
         matq = {k: [[Fraction(t) for t in r] for r in v] for k, v in mats.items()}
         scale = 1 + max(abs(t) for v in matq.values() for r in v for t in r) * N
@@ -714,30 +831,52 @@ def run(ctx):
         if len(starts) > ctx.n(12, 81):
             starts = ctx.rng.sample(starts, ctx.n(12, 81))
         for st in starts:
-            cap = ctx.rng.choice([3000, 3000, 3000, 1, 2, 5])
-            NE, res = polym_lcp_solver(pg, starting_player_actions=list(st), max_iter=cap, full_output=True)
-            replay = {"op": "polym_lcp_solver", "matrices": {"%d,%d" % k: v for k, v in mats.items()}, "start": list(st),
-                      "max_iter": cap, "NE": [list(map(float, a)) for a in NE], "converged": bool(res.converged),
-                      "num_iter": int(res.num_iter)}
-            ctx.count("polym:%s:%s" % ("generic" if generic else "integer", "converged" if res.converged else "gave-up(max_iter=%d)" % cap))
-            if res.converged:
-                prof = [F(a) for a in NE]
-                bad = None
-                for i, a in enumerate(prof):
-                    if len(a) != nums[i] or any(t < -Fraction(1, 10 ** 9) for t in a) or abs(sum(a) - 1) > ENV:
-                        bad = "player %d's action %s is not a probability vector" % (i, list(map(float, a)))
-                for i in range(N):
-                    pv = [sum((sum((matq[(i, j)][a][b] * prof[j][b] for b in range(nums[j])), Fraction(0))
-                               for j in range(N) if j != i), Fraction(0)) for a in range(nums[i])]
-                    u = sum(p * w for p, w in zip(pv, prof[i]))
-                    if max(pv) - u > Fraction(1, 10 ** 8) * scale:
-                        bad = bad or "player %d can gain %.3e" % (i, float(max(pv) - u))
-                if bad:
-                    ctx.spec_fail("polym_lcp_nash", "converged, but " + bad, replay)
-            elif cap >= 3000 and generic:
-                ctx.spec_fail("polym_lcp_convergence", "generic payoffs, no convergence within %d pivots" % cap, replay)
-            elif res.num_iter != cap:
-                ctx.spec_fail("polym_lcp_flag", "not converged after %d != max_iter=%d pivots" % (res.num_iter, cap), replay)
+            poly_case(N, nums, generic, mats, pg, matq, scale, st)
+
+    # the default `max_iter=-1` ("never give up") only on the docstring's matching pennies: a tree that cycles must
+    # not be able to hang the check, so every generated run has a finite cap
+    mp = {(0, 1): [[1., -1.], [-1., 1.]], (1, 0): [[-1., 1.], [1., -1.]]}
+    poly_case(2, [2, 2], True, mp, PolymatrixGame(mp), {k: [[Fraction(t) for t in r] for r in v] for k, v in mp.items()},
+              Fraction(3), (0, 0), cap=-1)
+
+    # corpus (runs first in spirit: fixed inputs found by an offline search over ~440 four-player games): runs whose
+    # back-tracking restarts while the slack w_{p,start_p} is basic in a row other than its original one - the
+    # situation in which `finishing_y in basis` and an O(1) look-up `basis[finishing_y] == finishing_y` differ
+    import json as _json
+    import os as _os
+    cpath = _os.path.join(ctx.corpus_dir, "c15_howson_moved.json")
+    if _os.path.exists(cpath):
+        for ent in _json.load(open(cpath)):
+            nums = ent["nums"]
+            N = len(nums)
+            mats = {tuple(int(t) for t in k.split(",")): v for k, v in ent["matrices"].items()}
+            generic = ent["kind"] == "generic"
+            pg = PolymatrixGame(mats)
+            matq = {k: [[Fraction(t) for t in r] for r in v] for k, v in mats.items()}
+            scale = 1 + max(abs(t) for v in matq.values() for r in v for t in r) * N
+            ctx.count("howson:corpus-cases")
+            poly_case(N, nums, generic, mats, pg, matq, scale, tuple(ent["start"]), cap=3000)
+
+    # back-tracking stream: all pure starts of further games are screened with the code itself; every start whose
+    # run back-tracks (leaving variable = finishing_v) becomes a case (full run, max_iter=-1 / 3000)
+    for _ in range(ctx.n(25, 150)):
+        N, nums, generic, mats = gen_poly(N=ctx.rng.choice([3, 4, 4]))
+        pg = PolymatrixGame(mats)
+        matq = {k: [[Fraction(t) for t in r] for r in v] for k, v in mats.items()}
+        scale = 1 + max(abs(t) for v in matq.values() for r in v for t in r) * N
+        kept = 0
+        for st in itertools.product(*[range(n) for n in nums]):
+            how_rec["piv"] = []
+            how_mod._pivoting = piv_rec
+            try:
+                polym_lcp_solver(pg, starting_player_actions=list(st), max_iter=3000)
+            finally:
+                how_mod._pivoting = orig_piv
+            ctx.count("howson:screened-starts")
+            back, moved = back_stats(nums, st, how_rec["piv"][N:])
+            if back and (kept < 6 or moved):
+                kept += 1
+                poly_case(N, nums, generic, mats, pg, matq, scale, st, cap=3000)
 
     # mclennan_tourky argument checks
     for N, L in [(1, 1), (2, 1), (2, 3), (3, 3), (3, 2)]:
